@@ -3,10 +3,14 @@
 package c02
 
 import (
+	"encoding/json"
 	"fmt"
 	"hash/fnv"
 	"math"
 	"math/rand"
+	"os"
+	"os/exec"
+	"path/filepath"
 	"sort"
 	"strconv"
 	"strings"
@@ -40,6 +44,7 @@ type worker struct {
 	bin string
 	s   *srv.Server
 	c   *respc.Conn
+	cur *dataset
 }
 
 func (w *worker) connect() error {
@@ -83,6 +88,11 @@ func (w *worker) lost(args []string, err error) {
 		why = fmt.Sprintf("server died on %q: %s", trunc(args), site)
 	} else if respc.IsTimeout(err) {
 		why = fmt.Sprintf("server did not answer %q within %v (wedged?)", trunc(args), w.c.Timeout)
+	}
+	if w.cur != nil && len(args) >= 3 && args[len(args)-3] == "GET" {
+		if o, ok := w.cur.objs[args[len(args)-1]]; ok && args[len(args)-2] == w.cur.key {
+			why += fmt.Sprintf(" [GET object: %q]", o.Args)
+		}
 	}
 	w.ctx.Inconclusive(why)
 	w.ctx.Count("server_lost", 1)
@@ -255,8 +265,8 @@ func (w *worker) build(d *dataset, rng *rand.Rand, thorough bool) bool {
 			if _, ok := w.do(cmd...); !ok {
 				return false
 			}
-			for _, o := range d.objs {
-				if o.HasRect {
+			for _, k := range sortedIDs(d.objs) {
+				if o := d.objs[k]; o.HasRect {
 					d.ghost = append(d.ghost, o.Rect)
 				}
 			}
@@ -571,6 +581,7 @@ func (w *worker) runDataset(idx int) {
 	gen := &geo.Gen{Rng: rng, Reg: reg}
 	d := &dataset{idx: idx, key: fmt.Sprintf("c02_%d", idx), akey: fmt.Sprintf("c02a_%d", idx), objs: map[string]geo.Obj{}, reg: reg, gen: gen}
 	d.agen = &geo.Gen{Rng: rng, Reg: reg, NoPool: true}
+	w.cur = d
 	if !w.build(d, rng, ctx.Thorough()) {
 		return
 	}
@@ -828,12 +839,18 @@ func Run(ctx *core.Ctx) {
 	if err != nil {
 		ctx.Fatal("%v", err)
 	}
-	nds := ctx.Pick(120, 600)
+	nds := ctx.Pick(120, 1500)
 	nw := 12
 	var wg sync.WaitGroup
 	next := make(chan int, nds)
+	only := -1
+	if v := os.Getenv("VERIF_C02_ONLY"); v != "" { // debugging aid: a single dataset
+		only, _ = strconv.Atoi(v)
+	}
 	for i := 0; i < nds; i++ {
-		next <- i
+		if only < 0 || i == only {
+			next <- i
+		}
 	}
 	close(next)
 	for wi := 0; wi < nw; wi++ {
@@ -856,4 +873,101 @@ func Run(ctx *core.Ctx) {
 		}()
 	}
 	wg.Wait()
+	if ctx.Violations() == 0 {
+		inPackageLayer(ctx)
+	}
+}
+
+// InpkgTest is the overlay test file of the second layer (kept outside /repo).
+var InpkgTest = filepath.Join(core.VerifDir, "inpkg", "collection", "verif_c02_test.go")
+
+// inPackageLayer runs Collection.Within/Intersects against a predicate Scan inside
+// internal/collection by injecting a test file with `go test -overlay` (nothing is
+// written to the tree under test). Anything that prevents the layer from running is
+// counted as overlay_inconclusive and never decides the property.
+func inPackageLayer(ctx *core.Ctx) {
+	inconclusive := func(why string) {
+		ctx.Count("overlay_inconclusive", 1)
+		ctx.Set("overlay_inconclusive_reason", why)
+		ctx.Logf("in-package layer inconclusive: %s", why)
+	}
+	if _, err := os.Stat(InpkgTest); err != nil {
+		inconclusive("test file missing: " + err.Error())
+		return
+	}
+	ov := map[string]any{"Replace": map[string]string{filepath.Join(srv.RepoDir, "internal", "collection", "verif_c02_test.go"): InpkgTest}}
+	b, _ := json.Marshal(ov)
+	ovPath := filepath.Join(srv.WorkDir(), "c02-overlay.json")
+	if err := os.WriteFile(ovPath, b, 0o644); err != nil {
+		inconclusive(err.Error())
+		return
+	}
+	target := ctx.Pick(200000, 20000000)
+	cmd := exec.Command("go", "test", "-v", "-count=1", "-tags", "verif", "-overlay="+ovPath, "-run", "^TestVerifC02IndexVsScan$", "-timeout", "30m", "./internal/collection/")
+	cmd.Dir = srv.RepoDir
+	cmd.Env = append(os.Environ(), "GOFLAGS=-mod=mod", "GOPROXY=off",
+		"VERIF_C02_SEED="+strconv.FormatInt(ctx.Seed, 10), "VERIF_C02_COMPARISONS="+strconv.Itoa(target))
+	out, err := cmd.CombinedOutput()
+	text := string(out)
+	var summary string
+	var mism []string
+	for _, l := range strings.Split(text, "\n") {
+		if strings.HasPrefix(l, "VERIF-C02-SUMMARY ") {
+			summary = l
+		} else if strings.HasPrefix(l, "VERIF-C02-MISMATCH ") {
+			mism = append(mism, l)
+		}
+	}
+	if summary == "" {
+		tail := text
+		if len(tail) > 1500 {
+			tail = tail[len(tail)-1500:]
+		}
+		inconclusive(fmt.Sprintf("no summary line (err=%v): %s", err, tail))
+		return
+	}
+	kv := map[string]string{}
+	for _, f := range strings.Fields(summary)[1:] {
+		if i := strings.IndexByte(f, '='); i > 0 {
+			kv[f[:i]] = f[i+1:]
+		}
+	}
+	num := func(k string) int64 { n, _ := strconv.ParseInt(kv[k], 10, 64); return n }
+	ctx.Count("inpkg_comparisons", num("comparisons"))
+	ctx.Count("inpkg_queries", num("queries"))
+	ctx.Count("inpkg_datasets", num("datasets"))
+	ctx.Count("inpkg_datasets_multilevel_tree", num("multilevel"))
+	ctx.Eval(int(num("queries")))
+	ctx.Set("inpkg_area_kinds", kv["areas"])
+	for _, a := range strings.Split(kv["areas"], ",") {
+		if i := strings.IndexByte(a, ':'); i > 0 {
+			ctx.Distinct("inpkg|" + a[:i])
+		}
+	}
+	// every mismatch class of the summary becomes one report, with the printed examples
+	for _, cl := range strings.Split(kv["classes"], ",") {
+		i := strings.LastIndexByte(cl, ':')
+		if cl == "" || i < 0 {
+			continue
+		}
+		parts := strings.Split(cl[:i], "/") // kind/cmd/area
+		if len(parts) != 3 {
+			continue
+		}
+		key := "inpkg:" + parts[0] + ":" + parts[1] + ":" + parts[2]
+		if parts[0] == "lost" && parts[2] == "circle" {
+			key = "lost:circle-search-rect"
+		}
+		var ex []string
+		for _, m := range mism {
+			if strings.Contains(m, "kind="+parts[0]+" cmd="+parts[1]+" area="+parts[2]+" ") {
+				if len(m) > 6000 {
+					m = m[:6000] + "..."
+				}
+				ex = append(ex, m)
+			}
+		}
+		ctx.Violation(key, fmt.Sprintf("in-package layer: Collection.%s and a Scan applying the same predicate differ (%s, area %s): %s cases of %s comparisons", parts[1], parts[0], parts[2], cl[i+1:], kv["comparisons"]),
+			map[string]any{"how": "go test -tags verif -overlay=<json> -run TestVerifC02IndexVsScan ./internal/collection/ with VERIF_C02_SEED / VERIF_C02_COMPARISONS", "seed": ctx.Seed, "comparisons": target, "examples": ex, "summary": summary})
+	}
 }
